@@ -19,6 +19,7 @@ def check(chk, thorough=False):
     chk.run('C02.a', 'R-SCHEMA', 'primary and canonical block layouts, flag / CRC / block-type / EID-scheme code points equal RFC 9171 and RFC 9172', lambda ob: c02a(tree, ob), floor=12)
     chk.run('C02.b', 'R-FLOW', 'a bundle encodes as 0x9f, each block item encoded on its own, 0xff; primary first; new blocks go before the payload, which is number 1', lambda ob: c02b(tree, ob), floor=4)
     chk.run('C02.c', 'sibling', 'encoder and decoder of every field / wrapper / packet kind are defined together and agree (order, frames, scheme tables)', lambda ob: c02c(tree, ob), floor=15)
+    chk.run('C02.e', 'R-TRUTH', 'conversions preserve values: no truthiness test on a converted value, decoded flag/enum integers wrapped unchanged, plain IntFlag enums, unnormalised EID parts, exact time arithmetic', lambda ob: c02e(tree, ob), floor=20)
     chk.run('C02.d', 'R-PAIR', 'encoded block data wins and is regenerated from the parsed payload only when absent; builders ensure it; admin records are reflected in flag, type and data and re-attached only under the admin flag', lambda ob: c02d(tree, ob), floor=7)
 
 
@@ -258,6 +259,77 @@ def c02c(tree, ob):
         ob.site(FIELDS, wk[0], 'dtn:none <-> [1, 0]')
 
 
+def c02e(tree, ob):
+    ''' Conversions must preserve values: no truthiness tests on a converted value (0, b'', '' and False are values),
+    no normalising URL accessors for EID parts, integer time arithmetic, no masking of decoded flag bits. '''
+    n = 0
+    for rel in (CFLD, FIELDS):
+        for node in tree.module(rel).tree.body:
+            if not isinstance(node, ast.ClassDef):
+                continue
+            for meth in node.body:
+                if not (isinstance(meth, ast.FunctionDef) and meth.name in ('i2m', 'm2i') and len(meth.args.args) >= 3):
+                    continue
+                val = meth.args.args[2].arg
+                qual = node.name + '.' + meth.name
+                fv = FuncView(tree, rel, qual)
+                n += 1
+                bad = None
+                for cn in fv.cfg.nodes:
+                    if cn.kind == 'cond':
+                        for (text, pol) in norm.all_atoms(cn.ast):
+                            if text == val:
+                                bad = cn
+                for sub in walk_local(meth):
+                    if isinstance(sub, ast.IfExp):
+                        if any(t == val for (t, p) in norm.all_atoms(sub.test)):
+                            bad = sub
+                if bad is not None:
+                    ob.violate(rel, qual, 'if {}{}'.format('' if True else 'not ', val), 'the converted value is tested by truthiness: 0, an empty string / byte string and False are '
+                               'legitimate values and are encoded or decoded as "absent"', bad.ast if hasattr(bad, 'ast') else bad)
+                else:
+                    ob.site(rel, meth, qual + ' does not test its value by truthiness')
+    # decoded enum / flag values are wrapped unmodified
+    for cname in ('FlagsField', 'EnumField'):
+        fv = FuncView(tree, CFLD, cname + '.m2i')
+        wraps = [c for c in calls_in(fv.func) if isinstance(c.func, ast.Attribute) and dotted(c.func.value) == 'self' and c.func.attr in ('flags', 'enum')]
+        w = one(wraps, 'enum wrap in ' + cname + '.m2i', ob)
+        arg = fv.value_at(w.args[0], w, depth=1)
+        if not (isinstance(w.args[0], ast.Name) and pm('UintField.m2i(self, pkt, $v)', arg) is not None):
+            ob.violate(CFLD, fv.qual, src(w), 'the decoded integer is altered (masked / converted) before being wrapped: reserved bits of a received value are lost', w)
+        else:
+            ob.site(CFLD, w, cname + '.m2i wraps the decoded integer unchanged')
+    for (rel, cname) in ((BLOCKS, 'PrimaryBlock.Flag'), (BLOCKS, 'CanonicalBlock.Flag'), (BPSEC, 'AbstractSecurityBlock.Flag')):
+        cn = tree.klass(rel, cname)
+        if [src(b) for b in cn.bases] != ['enum.IntFlag'] or cn.keywords:
+            ob.violate(rel, cname, 'class {}({})'.format(cn.name, ', '.join([src(b) for b in cn.bases] + ['{}={}'.format(k.arg, src(k.value)) for k in cn.keywords])),
+                       'flag enumeration is not a plain IntFlag: with a boundary policy unknown (reserved) bits of a received value are dropped or rejected', cn)
+        else:
+            ob.site(rel, cn, cname + ' is a plain IntFlag (unknown bits are kept)')
+    # EID text parts come from urlsplit() unnormalised
+    fv = FuncView(tree, FIELDS, 'EidField.i2m')
+    okacc = {'scheme', 'netloc', 'path'}
+    for sub in walk_local(fv.func):
+        if isinstance(sub, ast.Attribute) and isinstance(sub.value, ast.Name) and sub.value.id == 'parts':
+            if sub.attr in okacc:
+                ob.site(FIELDS, sub, 'EID part parts.' + sub.attr)
+            else:
+                ob.violate(FIELDS, fv.qual, 'parts.' + sub.attr, 'an EID component is read through urlsplit().{}, which normalises it (lower-cases the host, drops port / user info): '
+                           'the encoded EID differs from the given one'.format(sub.attr), sub)
+        elif isinstance(sub, ast.Subscript) and isinstance(sub.value, ast.Name) and sub.value.id == 'parts':
+            ob.site(FIELDS, sub, 'EID part ' + src(sub))
+    # DTN time <-> datetime uses exact (timedelta / integer) arithmetic
+    for meth in ('datetime_to_dtntime', 'dtntime_to_datetime'):
+        fv = FuncView(tree, FIELDS, 'DtnTimeField.' + meth)
+        floaty = [c for c in calls_in(fv.func) if isinstance(c.func, ast.Attribute) and c.func.attr in ('total_seconds', 'timestamp')] + \
+                 [c for c in walk_local(fv.func) if isinstance(c, ast.Constant) and isinstance(c.value, float)]
+        if floaty:
+            ob.violate(FIELDS, fv.qual, src(floaty[0])[:60], 'DTN time is converted through floating point: some millisecond values come out one short', floaty[0])
+        else:
+            ob.site(FIELDS, fv.func, meth + ' uses exact timedelta arithmetic')
+    ob.require(n >= 10, 'field conversion methods')
+
+
 def c02d(tree, ob):
     fe = FuncView(tree, BLOCKS, 'CanonicalBlock.ensure_block_type_specific_data')
     stores = [n for n in walk_local(fe.func) if isinstance(n, ast.Assign) and pm("self.fields['btsd']", n.targets[0]) is not None]
@@ -275,6 +347,9 @@ def c02d(tree, ob):
         sup = [c for c in calls_in(fv.func) if isinstance(c.func, ast.Attribute) and isinstance(c.func.value, ast.Call) and dotted(c.func.value.func) == 'super']
         if not ens or not sup or not fv.dominates(ens[0], sup[0])[0]:
             ob.violate(BLOCKS, qual, 'self.ensure_block_type_specific_data()', 'block is built / sized without making sure its data field exists', fv.func)
+        elif not fv.cfg.must_pass(fv.cfg.entry, fv.cfg.exit, {fv.node(sup[0])}, include_exc=False)[0]:
+            ob.violate(BLOCKS, qual, src(sup[0]), 'the base-class step (CRC placeholder / field building) is skipped on some path, e.g. when the block data is already present: '
+                       'a CRC-protected block is then measured or built without its CRC field', sup[0])
         else:
             ob.site(BLOCKS, ens[0], qual + ' ensures block data first')
     for qual in ('Bundle.self_build', 'Bundle.fill_fields', 'Bundle.update_all_crc'):
